@@ -2,7 +2,7 @@
    name.  This is what is extracted; the correspondence harness calls these
    and nothing else. *)
 From AK Require Import Base.Prelude Base.Sx Bytes.Text Bytes.FabHeader Bytes.BinFile
-  Reader.Select Reader.BoxRead Reader.Level Plotfile.TextHeader.
+  Reader.Select Reader.BoxRead Reader.Level Plotfile.TextHeader Taste.Taste.
 
 Definition as_Zs := as_list as_Z.
 Definition as_optZ := as_opt as_Z.
@@ -221,6 +221,54 @@ Definition e_parse_cellh (s : sx) : sx :=
   | _ => bad_request
   end.
 
+(* ---- C03 / C04 / C20: the validator on an arbitrary directory ---- *)
+Definition dec_ldir (s : sx) : option (bytes * ldir) :=
+  match s with
+  | SL [SB name; ch; files] =>
+      do ch <- as_opt as_text ch; do files <- dec_disk files;
+      Some (name, {| ld_cellh := ch; ld_files := files |})
+  | _ => None
+  end.
+
+Definition dec_pdisk (s : sx) : option pdisk :=
+  match s with
+  | SL [h; dirs] =>
+      do h <- as_opt as_text h; do dirs <- as_list dec_ldir dirs;
+      Some {| pd_header := h; pd_dirs := dirs |}
+  | _ => None
+  end.
+
+Definition dec_topts (s : sx) : option topts :=
+  match s with
+  | SL [a; b; c; d] =>
+      do a <- as_bool a; do b <- as_bool b; do c <- as_bool c; do d <- as_bool d;
+      Some {| t_headers := a; t_shape := b; t_data := c; t_coords := d |}
+  | _ => None
+  end.
+
+(* request: (opts limit disk) -> verdict as 0/1 *)
+Definition e_taste (s : sx) : sx :=
+  match s with
+  | SL [o; limit; d] =>
+      req (do o <- dec_topts o; do l <- as_optZ limit; do d <- dec_pdisk d; Some (o, l, d))
+          (fun '(o, l, d) => ok (of_bool (taste_good o l d)))
+  | _ => bad_request
+  end.
+
+(* all 16 option sets at once (the box-coordinate flag does not enter the
+   modelled part): returns the verdict per (headers, shape, data) *)
+Definition e_taste_all (s : sx) : sx :=
+  match s with
+  | SL [limit; d] =>
+      req (do l <- as_optZ limit; do d <- dec_pdisk d; Some (l, d))
+          (fun '(l, d) =>
+             ok (of_list of_bool
+                   (map (fun k => taste_good {| t_headers := Nat.testbit k 0; t_shape := Nat.testbit k 1;
+                                                t_data := Nat.testbit k 2; t_coords := false |} l d)
+                        (seq 0 8))))
+  | _ => bad_request
+  end.
+
 Definition entries : list (string * (sx -> sx)) :=
   [ ("getitem", e_getitem);
     ("iter_all", e_iter_all);
@@ -234,7 +282,9 @@ Definition entries : list (string * (sx -> sx)) :=
     ("print_header", e_print_header);
     ("print_cellh", e_print_cellh);
     ("open_header", e_open_header);
-    ("parse_cellh", e_parse_cellh)
+    ("parse_cellh", e_parse_cellh);
+    ("taste", e_taste);
+    ("taste_all", e_taste_all)
   ]%string.
 
 Fixpoint find_entry (name : string) (l : list (string * (sx -> sx))) : option (sx -> sx) :=
